@@ -305,3 +305,72 @@ def run(ctx):
              ctx.construct(rn, extra='now(UTC) - older_than minutes'),
              'the expiration time is not "UTC now minus older_than minutes"',
              ctx.loc(rn))
+
+    # ---- R6 the shared base query carries no ordering of its own ------------------
+    r6 = ctx.rule('R6', 'ordering is applied by the two criteria only '
+                  '(order_by is additive: an order in the shared base query '
+                  'would take precedence over "newest first"); the '
+                  'cascade-depth fallback recognises real driver messages',
+                  'QSHAPE + const')
+    ob = [c for c in own_nodes(bq.node) if isinstance(c, ast.Call) and
+          U.call_name(c) == 'order_by']
+    r6.check(not ob, ctx.construct(bq, extra='no order_by in the base query'),
+             'the base query is ordered by %s: get_superfluous_executions '
+             'adds its updated_at DESC after it, so the offset keeps the '
+             'wrong executions' % [norm(c, 60) for c in ob], ctx.loc(bq))
+    import re as _re
+    FIX = {
+        'is_mysql_max_depth_error':
+            "(pymysql.err.OperationalError) (3008, 'Foreign key cascade "
+            "delete/update exceeds max depth of 15.')\n[SQL: DELETE FROM "
+            "workflow_executions_v2 WHERE workflow_executions_v2.id = "
+            "%(id_1)s]\n[parameters: {'id_1': 'x'}]\n(Background on this "
+            "error at: https://sqlalche.me/e/20/e3q8)",
+        'is_mariadb_max_depth_error':
+            "(pymysql.err.OperationalError) (1030, 'Got error 193 \"`mistral`."
+            "`task_executions_v2`, CONSTRAINT `fk` FOREIGN KEY "
+            "(`workflow_execution_id`) REFERENCES `workflow_executions_v2` "
+            "(`id`) ON DELETE CASCADE\" from storage engine InnoDB')\n"
+            "[SQL: DELETE FROM workflow_executions_v2 WHERE "
+            "workflow_executions_v2.id = %(id_1)s]\n[parameters: "
+            "{'id_1': 'x'}]",
+    }
+    for name, msg in sorted(FIX.items()):
+        df = prog.func(DB + '.' + name)
+        calls = [c for c in own_nodes(df.node) if isinstance(c, ast.Call) and
+                 U.call_name(c) in ('match', 'search', 'fullmatch')]
+        okm = False
+        if len(calls) == 1:
+            c = calls[0]
+            meth = U.call_name(c)
+            pat = None
+            cands = list(c.args[:1])
+            if isinstance(c.func, ast.Attribute) and \
+                    dotted(c.func.value) != 're':
+                cands = [c.func.value]
+            for a in cands:
+                try:
+                    v = prog.eval_const(df.module, U.canon_expr(df.node, a))
+                except NotConst:
+                    v = None
+                    node = prog.module_assigns.get(df.module, {}).get(
+                        dotted(a) or '')
+                    if isinstance(node, ast.Call) and node.args:
+                        try:
+                            v = prog.eval_const(df.module, node.args[0])
+                        except NotConst:
+                            v = None
+                if isinstance(v, str):
+                    pat = v
+            if pat is not None:
+                try:
+                    okm = bool(getattr(_re.compile(pat), meth)(msg))
+                except _re.error:
+                    okm = False
+        r6.check(okm, ctx.construct(df, extra='matches a wrapped multi-line '
+                                    'driver message'),
+                 'the detector does not recognise the error as the drivers '
+                 'report it (wrapped by SQLAlchemy / oslo.db, several '
+                 'lines): the cascade-depth fallback is never taken, the '
+                 'delete fails and the expired deep tree is never removed',
+                 ctx.loc(df))
